@@ -63,6 +63,11 @@ namespace fam_lockhash {
         return h;
     }
 
+    static bool low_bit_bijective( HashFn const& h )
+    {
+        return h.kind == HK_IDENT || h.kind == HK_MUL || h.kind == HK_NOT || h.kind == HK_AFFINE || ( h.kind == HK_SHL && h.par == 0 );
+    }
+
     // variants named *_degenerate_tuple force the shapes the suspected CuckooSet::resize() defect needs
     static bool g_force_degenerate = false;
     static bool g_forbid_degenerate = false;
@@ -77,24 +82,24 @@ namespace fam_lockhash {
         p.probe = ( probe & 1 ) ? 4u : 2u;
         p.thr = unsigned( thr % 4 );                        // 0 = library default (size - 1), 1..3 clamped below the probe-set size
         p.rt_policy = size_t( 1 + cfg_at( c, CF_POLICY, 0 ) % 2 );
-        if ( const char* e = getenv( "REHASH_EXPERIMENT" )) {
-            if ( e[0] == 'A' && inj.kind == HK_SHL )
-                inj.par = 0;                // injective member bijective on the low bits
-            if ( e[0] == 'B' && !fre.injective())
-                fre = injective_member( cfg_at( c, CF_FREE_KIND, 0 ) + 1, cfg_at( c, CF_FREE_PAR, 0 ));
-            if ( e[0] == 'C' ) {            // both low-bit bijective
-                if ( inj.kind == HK_SHL ) inj.par = 0;
-                if ( !fre.injective() || fre.kind == HK_SHL ) { fre = injective_member( cfg_at( c, CF_FREE_KIND, 0 ) + 1, cfg_at( c, CF_FREE_PAR, 0 )); if ( fre.kind == HK_SHL ) fre.par = 0; }
-            }
-        }
         switch ( kind ) {
         case CK_CUCKOO:
-            if ( g_force_degenerate && fre.injective()) {
+            if ( g_force_degenerate && low_bit_bijective( fre )) {
+                // degenerate_tuple variants: the free member is never a bijection on the low bits
                 fre.kind = ( cfg_at( c, CF_FREE_PAR, 0 ) & 1 ) ? HK_AND : HK_CONST;
                 fre.par = ( fre.kind == HK_AND ) ? 1 : 0;
             }
-            if ( g_forbid_degenerate && !fre.injective())
-                fre = injective_member( cfg_at( c, CF_FREE_KIND, 0 ) + 1, cfg_at( c, CF_FREE_PAR, 0 ));
+            if ( g_forbid_degenerate ) {
+                // clean variants: both members are bijections on the low k bits for every k (ident, k * odd, ~k, 7k + 3):
+                // keys that share one probe set then share both, a class of keys never holds more than 2 * probe-set size
+                // elements and no other class competes for its slots
+                if ( !low_bit_bijective( fre ))
+                    fre = injective_member( cfg_at( c, CF_FREE_KIND, 0 ) + 1, cfg_at( c, CF_FREE_PAR, 0 ));
+                if ( fre.kind == HK_SHL )
+                    fre.par = 0;
+                if ( inj.kind == HK_SHL )
+                    inj.par = 0;
+            }
             if ( cfg_at( c, CF_ORDER, 0 ) & 1 ) {
                 p.h[0] = inj;
                 p.h[1] = fre;
@@ -103,7 +108,7 @@ namespace fam_lockhash {
                 p.h[0] = fre;
                 p.h[1] = inj;
             }
-            p.degenerate = !fre.injective();
+            p.degenerate = !low_bit_bijective( fre ) || !low_bit_bijective( inj );
             break;
         case CK_STRIPED_THRESHOLD:
             p.h[0] = p.h[1] = inj;
@@ -288,16 +293,23 @@ namespace {
 #define RH_DG( NAME, ... ) { NAME, mh::GC_NONE, 0, &fam_lockhash::degenerate<&fam_lockhash::__VA_ARGS__>, false },
     const MapVariant kVariants[] = {
 #ifndef REHASH_BOOST_PART
-        // Cuckoo: every flavour with free hash tuples
-        RH_V( "CuckooSet_list_eq_striping", mk_cuckoo_set<cus_list_eq_striping> )
-        RH_V( "CuckooSet_list_cmp_refinable_storehash", mk_cuckoo_set<cus_list_cmp_refinable_sh> )
-        RH_V( "CuckooSet_vector2_less_striping_storehash", mk_cuckoo_set<cus_vec2_less_striping_sh> )
-        RH_V( "CuckooSet_vector4_eq_refinable", mk_cuckoo_set<cus_vec4_eq_refinable> )
-        RH_V( "CuckooMap_list_less_refinable", mk_cuckoo_map<cum_list_less_refinable> )
-        RH_V( "CuckooMap_vector2_eq_striping_storehash", mk_cuckoo_map<cum_vec2_eq_striping_sh> )
-        RH_V( "ICuckooSet_list_base_eq_striping", mk_cuckoo_intrusive<CuNode_list0, icu_list_eq_striping> )
-        RH_V( "ICuckooSet_list_base_less_refinable_storehash2", mk_cuckoo_intrusive<CuNode_list2, icu_list_less_refinable_sh2> )
-        RH_V( "ICuckooSet_vector4_member_cmp_striping_storehash2", mk_cuckoo_intrusive<CuMNode_vec4_2, icu_mvec4_cmp_striping_sh2> )
+        // Cuckoo, clean shapes: both hash functions are bijections on the low bits (see decode_params)
+        RH_WB( "CuckooSet_list_eq_striping", mk_cuckoo_set<cus_list_eq_striping> )
+        RH_WB( "CuckooSet_list_cmp_refinable_storehash", mk_cuckoo_set<cus_list_cmp_refinable_sh> )
+        RH_WB( "CuckooSet_vector2_less_striping_storehash", mk_cuckoo_set<cus_vec2_less_striping_sh> )
+        RH_WB( "CuckooSet_vector4_eq_refinable", mk_cuckoo_set<cus_vec4_eq_refinable> )
+        RH_WB( "CuckooMap_list_less_refinable", mk_cuckoo_map<cum_list_less_refinable> )
+        RH_WB( "CuckooMap_vector2_eq_striping_storehash", mk_cuckoo_map<cum_vec2_eq_striping_sh> )
+        RH_WB( "ICuckooSet_list_base_eq_striping", mk_cuckoo_intrusive<CuNode_list0, icu_list_eq_striping> )
+        RH_WB( "ICuckooSet_list_base_less_refinable_storehash2", mk_cuckoo_intrusive<CuNode_list2, icu_list_less_refinable_sh2> )
+        RH_WB( "ICuckooSet_vector4_member_cmp_striping_storehash2", mk_cuckoo_intrusive<CuMNode_vec4_2, icu_mvec4_cmp_striping_sh2> )
+        // Cuckoo, degenerate shapes: one member constant / k & 1 / k & m / k >> s / k << s, the other one injective on the key
+        // space (possibly k << s). KNOWN to fail on the unchanged tree: CuckooSet::resize() drops an element when every
+        // candidate probe set of the new table is full (see the report / replays/C17)
+        RH_DG( "CuckooSet_degenerate_tuple", mk_cuckoo_set<cus_list_eq_striping> )
+        RH_DG( "CuckooSet_vector2_degenerate_tuple", mk_cuckoo_set<cus_vec2_less_striping_sh> )
+        RH_DG( "CuckooMap_degenerate_tuple", mk_cuckoo_map<cum_list_less_refinable> )
+        RH_DG( "ICuckooSet_degenerate_tuple", mk_cuckoo_intrusive<CuNode_list2, icu_list_less_refinable_sh2> )
         // Striped over std containers
         RH_V( "StripedSet_std_list_less_striping_LF1", mk_striped_set<B_std_list, RP_LF1, MX_S, O_LESS> )
         RH_V( "StripedSet_std_list_cmp_refinable_T1_move", mk_striped_set<B_std_list, RP_T1, MX_R, O_CMP, O_MOVE> )
